@@ -291,6 +291,13 @@ func CheckC10(h *History, blk *BlockRecord) []Violation {
 			}
 		}
 		health, herr := k.GetMTPHealth(ctx, mm, amm, ptypes.BaseCurrency)
+		if herr == nil {
+			folded := mm
+			folded.Liabilities, folded.BorrowInterestUnpaidLiability = mm.Liabilities.Add(mm.BorrowInterestUnpaidLiability), sdkmath.ZeroInt()
+			if h2, err := k.GetMTPHealth(ctx, folded, amm, ptypes.BaseCurrency); err == nil && h2.LT(health) {
+				health = h2
+			}
+		}
 		price, perr := k.GetAssetPrice(ctx, m.TradingAsset)
 		if herr != nil || perr != nil {
 			h.Labels["c10-health-unavailable"]++
@@ -370,6 +377,14 @@ func CheckC10(h *History, blk *BlockRecord) []Violation {
 					amm, _ := h.W.App.AmmKeeper.GetPool(rctx, mtp.AmmPoolId)
 					if hh, err := h.W.App.PerpetualKeeper.GetMTPHealth(rctx, mtp, amm, ptypes.BaseCurrency); err == nil {
 						h.Labels["c10-open-health-checked"]++
+						// health is a function of the total debt: principal plus interest accrued and not yet paid. Moving the
+						// unpaid interest into the principal must not change it (metamorphic relation); the lower value counts
+						folded := mtp
+						folded.Liabilities, folded.BorrowInterestUnpaidLiability = mtp.Liabilities.Add(mtp.BorrowInterestUnpaidLiability), sdkmath.ZeroInt()
+						if h2, err := h.W.App.PerpetualKeeper.GetMTPHealth(rctx, folded, amm, ptypes.BaseCurrency); err == nil && h2.LT(hh) {
+							h.Labels["c10-health-changes-when-unpaid-interest-is-folded-into-principal"]++
+							hh = h2
+						}
 						// two measures: the health the chain itself stored for the position when the open finished, and the
 						// health recomputed on the committed state. The second prices the position against the NEXT block's
 						// pool snapshot (which already contains this open's own borrow), the first against the snapshot of the
